@@ -1192,8 +1192,8 @@ class FS(object):
                 except OSError:
                     pass
                 else:
-                    if preserve_time:
-                        copy_modified_time(self, _src_path, self, _dst_path)
+                    # a renamed file keeps its modification time, and the source
+                    # no longer exists: there is nothing to copy
                     return
         with self._lock:
             with self.open(_src_path, "rb") as read_file:
